@@ -136,4 +136,15 @@ CHECKS = {
         abnormal_exit_is_violation=True,
         assumptions=HARNESS_TRUST,
     ),
+    "C15": dict(
+        level="exploration",
+        rule=("scenario = master with two associations on one channel; 1-3 user tasks (read single/multi-fragment, direct operate, select+operate, non-LAN time sync, restart, dead-band write, empty-response request); for each the harness (as outstation) sends a stream of 0-4 unacceptable fragments "
+              "{wrong sequence, wrong source (other association / unknown), solicited with UNS, illegal FIR/FIN/CON for the position, IIN2 rejection, unsolicited (null/data), duplicate unsolicited, truncated objects, unknown object} optionally followed by the faithful answer; "
+              "distinct = (task kind, fragment class, fragment position, CON) tuples in which the acceptance/confirm/delivery rules were evaluated"),
+        runs=[dict(check="c15", timeout_s=900)],
+        required=["accepted_confirmed_ok", "rejected_not_confirmed_ok", "completed_with_answer_ok", "not_completed_without_answer_ok", "deliveries_match_ok", "unsolicited_confirmed_ok", "unsolicited_delivery_ok", "unsolicited_duplicates_sent", "startup_unsol_retry_delivered_ok", "startup_unsol_duplicate_null_ok", "long_series_ok"],
+        thorough_scale=25.0,
+        abnormal_exit_is_violation=True,
+        assumptions=HARNESS_TRUST,
+    ),
 }
